@@ -110,7 +110,7 @@ def descend(prop, ops, sig, budget):
                         c3 = copy.deepcopy(op)
                         c3[2]["p"][k] = DEFAULT_COSTS[k]
                         cands.append(c3)
-            for k in ("call", "costs_int"):
+            for k in ("call", "costs_int", "costs_form"):
                 if cfg["p"].get(k):
                     c2 = copy.deepcopy(op)
                     del c2[2]["p"][k]
